@@ -9,6 +9,7 @@ import PoseVerif.Driver.Represent
 import PoseVerif.Model.Frames
 import PoseVerif.Model.OpenPose
 import PoseVerif.Model.Select
+import PoseVerif.Model.SpecEnc
 /-!
 `posedriver`: one JSON request per input line, one JSON answer per output line.
 Runs the executable definitions of the model (the same ones the theorems are about).
@@ -120,9 +121,30 @@ def runSchedule (j : Json) : R Json := do
     | .start => Json.mkObj [("state", "start")]
   pure (Json.mkObj [("ok", Json.bool true), ("threads", Json.arr out.toArray)])
 
+/-- the reference encoders of `Model/SpecEnc.lean` (written from docs/specs): `{"version": "v02" | "v01" | "v00", …}` → the file's bytes -/
+def runSpecFile (j : Json) : R Json := do
+  let v ← j.getObjValAs? String "version"
+  let bytes ← match v with
+    | "v02" => do
+      let p ← poseOfJson (← j.getObjVal? "pose")
+      pure (specFile p (UInt32.ofNat (← getNat j "fps_bits")))
+    | "v01" => do
+      let p ← poseOfJson (← j.getObjVal? "pose")
+      pure (specFileV01 p (← getNat j "fps") (← getNat j "frames_field"))
+    | "v00" => do
+      let h ← headerOfJson (← j.getObjVal? "header")
+      let frames ← (← (← j.getObjVal? "frames").getArr?).toList.mapM fun fr => do
+        (← fr.getArr?).toList.mapM fun pj => do
+          let blocks ← (← (← pj.getObjVal? "blocks").getArr?).toList.mapM fun b => do pure ((← getNatArr b).map UInt32.ofNat)
+          pure ({ id := ← getNat pj "id", blocks } : PersonV00)
+      pure (specFileV00 h (← getNat j "fps") frames)
+    | _ => throw s!"unknown version {v}"
+  pure (Json.mkObj [("ok", Json.bool true), ("hex", Json.str (toHex bytes))])
+
 def handle (j : Json) : R Json := do
   let op ← j.getObjValAs? String "op"
   match op with
+  | "spec_file" => runSpecFile j
   | "write" =>
     let p ← poseOfJson (← j.getObjVal? "pose")
     match p.write? with
@@ -159,6 +181,7 @@ def handle (j : Json) : R Json := do
   | "body_ops" => runBodyOps j
   | "represent" => runRepresent j
   | "rep_layout" => runRepLayout j
+  | "rep_forward" => runRepForward j
   | "select" =>
     let comps ← (← (← j.getObjVal? "components").getArr?).toList.mapM compOfJson
     let hexList (v : Json) : R (List String) := do
